@@ -3794,8 +3794,8 @@ func (r *JournalReader) Next() (err error) {
 		return io.EOF
 	}
 
-	// After the first segment, we require the magic bytes.
-	if r.offset > 0 && !bytes.Equal(hdr[:8], []byte(SQLITE_JOURNAL_HEADER_STRING)) {
+	// Every segment header must start with the magic bytes.
+	if !bytes.Equal(hdr[:8], []byte(SQLITE_JOURNAL_HEADER_STRING)) {
 		return io.EOF
 	}
 
